@@ -75,7 +75,8 @@ def points(tier):
     for si in range(4):
         for vers in ("2.0", "1.2"):
             for case in ("preserve", "upper", "lower"):
-                pts.append(["viaread", si, vers, case])
+                for ti in range(len(TITLE_FORMS)):
+                    pts.append(["viaread", si, vers, case, ti])
     return pts
 
 
@@ -212,17 +213,21 @@ def check_point(pt):
     elif kind == "numunit":
         vio, n, nt = run_lines(gen_numunit())
     else:
-        vio, n, nt = via_read(pt[1], pt[2] if len(pt) > 2 else "2.0", pt[3] if len(pt) > 3 else "preserve")
+        vio, n, nt = via_read(pt[1], pt[2] if len(pt) > 2 else "2.0", pt[3] if len(pt) > 3 else "preserve", pt[4] if len(pt) > 4 else 0)
     return e1.compress(vio), (repr(pt), nt), kind, {kind + "_lines": n}, n
 
 
 SEC_TITLES = [("Version", "~Version"), ("Well", "~Well"), ("Curves", "~Curve"), ("Parameter", "~Parameter")]
+# title spellings of the same section kind (the grammar of a line depends on the KIND of its section, not on how the title is spelt)
+TITLE_FORMS = [lambda t: t, lambda t: t.lower() + " information", lambda t: t[:2].lower(), lambda t: t.upper() + " INFORMATION BLOCK"]
 
 
-def via_read(si, vers="2.0", case="preserve"):
+def via_read(si, vers="2.0", case="preserve", ti=0):
     """All fields, three pad patterns, through lasio.read: the parsed items must carry the fields
     (units bracket-stripped, numeric-looking values compared as text via str())."""
     key, title = SEC_TITLES[si]
+    title = TITLE_FORMS[ti](title)
+    vtitle = TITLE_FORMS[ti]("~Version")
     vio = []
     n = 0
     nt = 0
@@ -244,7 +249,16 @@ def via_read(si, vers="2.0", case="preserve"):
                         pass
                     lines.append(make_line(mn, unit, value, descr, pads))
                     exps.append((mn, unit, value, descr))
-            head = "~Version\nVERS. %s : v\nWRAP. NO : w\n" % vers
+            # the documented special forms, in this section: clock-time values (and, inside ~Parameter, a description with colons)
+            if key == "Parameter":
+                specials = [("TIML", "hh:mm", "23:15 23-JAN-2001", "Time Logger: At Bottom"), ("TIMC", "", "07:05:59", "a : b : c")]
+            else:
+                specials = [("TIML", "hh:mm", "23:15", "Time Logger At Bottom"), ("TIMC", "", "07:05:59", "d")]
+            for (mn, un, va, de) in specials:
+                if unit == UNITS[0]:
+                    lines.append(make_line(mn, un, va, de, ("", "", " ", " ", " ", "")))
+                    exps.append((mn, un, va, de))
+            head = "%s\nVERS. %s : v\nWRAP. NO : w\n" % (vtitle, vers)
             pre = head if key != "Version" else ""
             text = pre + title + "\n" + "\n".join(lines) + "\n~ASCII\n1 2\n"
             if key == "Version":
@@ -256,11 +270,11 @@ def via_read(si, vers="2.0", case="preserve"):
                 if key == "Version":
                     items = items[2:]
             except Exception as e:
-                vio.append({"clause": "via-read-raises", "sig": key, "witness": {"text": text, "si": si, "vers": vers, "case": case}, "expected": "read succeeds",
+                vio.append({"clause": "via-read-raises", "sig": key, "witness": {"text": text, "si": si, "vers": vers, "case": case, "ti": ti}, "expected": "read succeeds",
                             "observed": "%s: %s" % (type(e).__name__, str(e)[:200]), "size": len(text), "repro": "lasio.read(text)"})
                 continue
             if len(items) != len(exps):
-                vio.append({"clause": "via-read-count", "sig": key, "witness": {"text": text, "si": si, "vers": vers, "case": case}, "expected": len(exps),
+                vio.append({"clause": "via-read-count", "sig": key, "witness": {"text": text, "si": si, "vers": vers, "case": case, "ti": ti}, "expected": len(exps),
                             "observed": len(items), "size": len(text), "repro": "lasio.read(text)"})
                 continue
             for it, (mn, un, va, de), line in zip(items, exps, lines):
@@ -272,7 +286,7 @@ def via_read(si, vers="2.0", case="preserve"):
                 got = (it.original_mnemonic, it.unit, it.descr)
                 okv = str(it.value) == va or _numeq(it.value, va)
                 if got != (mn, eu, de) or not okv:
-                    vio.append({"clause": "via-read-fields", "sig": key, "witness": {"line": line, "section": key, "si": si, "vers": vers, "case": case},
+                    vio.append({"clause": "via-read-fields", "sig": key, "witness": {"line": line, "section": key, "si": si, "vers": vers, "case": case, "ti": ti},
                                 "expected": [mn, eu, va, de], "observed": [it.original_mnemonic, it.unit, repr(it.value), it.descr],
                                 "size": len(line), "repro": "lasio.read(...%r...)" % line})
     return vio, n, nt
@@ -297,7 +311,7 @@ def replay(witness):
             reader_prev_done = True
         vio, _, _ = run_lines([(witness["line"], witness["section"], witness["expected"])])
         return vio
-    return via_read(witness["si"], witness.get("vers", "2.0"), witness.get("case", "preserve"))[0]
+    return via_read(witness["si"], witness.get("vers", "2.0"), witness.get("case", "preserve"), witness.get("ti", 0))[0]
 
 
 def units(tier, seed):
